@@ -46,6 +46,19 @@ def shapes(k):
         ("reduce-callback", "f = (a, n) => %s" % nest(k, "reduce([n + 1], f, a)"), "f(0, 0)"),
         ("do-block", "f = n => do {\n  m = n + 1\n  return %s\n}" % nest(k, "f(m)"), "f(0)"),
         ("into", "f = n => %s" % nest(k, "((n + 1) into f)"), "f(0)"),
+        # fan-out: every level makes two callback calls; unless the first depth error ends the whole
+        # evaluation the call tree is exponential (sort_by used to read the error as "equal keys")
+        ("map-fanout", "f = n => %s" % nest(k, "map([n + 1, n + 2], f)[0]"), "f(0)"),
+        ("filter-fanout", "f = n => %s" % nest(k, "filter([n + 1, n + 2], f)"), "f(0)"),
+        ("every-fanout", "f = n => %s" % nest(k, "every([n + 1, n + 2], f)"), "f(0)"),
+        ("some-fanout", "f = n => %s" % nest(k, "some([n + 1, n + 2], f)"), "f(0)"),
+        ("reduce-fanout", "f = (a, n) => %s" % nest(k, "reduce([n + 1, n + 2], f, a)"), "f(0, 0)"),
+        ("sort_by-fanout", "f = n => %s" % nest(k, "sort_by([n + 1, n + 2], f)[0]"), "f(0)"),
+        ("sort_by-lambda", "f = n => %s" % nest(k, "sort_by([1, 2], x => f(n + 1))"), "f(0)"),
+        ("group_by-fanout", "f = n => %s" % nest(k, "group_by([n + 1, n + 2], f)"), "f(0)"),
+        ("count_by-fanout", "f = n => %s" % nest(k, "count_by([n + 1, n + 2], f)"), "f(0)"),
+        ("via-fanout", "f = n => %s" % nest(k, "([n + 1, n + 2] via f)[0]"), "f(0)"),
+        ("where-fanout", "f = n => %s" % nest(k, "([n + 1, n + 2] where f)"), "f(0)"),
     ]
 
 
@@ -53,7 +66,7 @@ def bounded(k, depth):
     return ("c = n => if n <= 0 then 0 else %s" % nest(k, "c(n - 1)"), "c(%d)" % depth)
 
 
-def run_cli(cli, src, timeout=120):
+def run_cli(cli, src, timeout=60):
     try:
         p = subprocess.run([cli, src], stdin=subprocess.DEVNULL, capture_output=True, text=True, timeout=timeout)
         return p.returncode, p.stdout, p.stderr
@@ -97,6 +110,10 @@ def main(argv):
         ("do", "c = n => do {\n  m = n - 1\n  return if n <= 0 then 0 else c(m)\n}", "c(%d)"),
         ("into", "c = n => if n <= 0 then 0 else ((n - 1) into c)", "c(%d)"),
         ("map-of-map", "c = n => if n <= 0 then [0] else map([n - 1], x => map([x], c)[0])[0]", "c(%d)"),
+        ("some", "c = n => if n <= 0 then false else some([n - 1], c)", "c(%d)"),
+        ("sort_by", "c = n => if n <= 0 then 0 else sort_by([0, n - 1], c)[1]", "c(%d)"),
+        ("group_by", "c = n => if n <= 0 then \"z\" else keys(group_by([n - 1], c))[0]", "c(%d)"),
+        ("count_by", "c = n => if n <= 0 then \"z\" else keys(count_by([n - 1], c))[0]", "c(%d)"),
     ]
     for name, defs, call in bshapes:
         for n in grid:
@@ -138,7 +155,7 @@ def main(argv):
             res.violation("the depth error is not monotone in the recursion depth",
                           {"kind": "impl-law", "shape": name, "observed": seq})
         boundaries[name] = first_err
-        if dict(seq).get(300) != "OK" and name not in ("map", "filter", "reduce", "every", "map-of-map"):
+        if dict(seq).get(300) != "OK" and name not in ("map", "filter", "reduce", "every", "map-of-map", "some", "sort_by", "group_by", "count_by"):
             res.violation("recursion 300 calls deep did not complete normally",
                           {"kind": "impl-law", "shape": name, "observed": seq})
     res.streams["DEPTH"] = {"programs": len(srcs), "shapes": [b[0] for b in bshapes], "grid": grid,
